@@ -329,6 +329,147 @@ def rule_get(F, R):
                 "do_get receives the caller's direction and state", "do_get called with other objects: " + pp(c))
 
 
+_PF = frozenset(("nonan", "noinf", "pos"))          # abstract value of a real number: which of "not NaN", "not infinite", "> 0" are certain
+
+
+def _pf_eval(F, f, n, stepd, facts, depth=0):
+    """subset of _PF certain for the value of expression n (facts: what is certain for the step variable)"""
+    n = skip(n)
+    k = n["k"]
+    if k in ("paren", "cast", "construct", "initlist") and len(n.get("c", ())) == 1:
+        return _pf_eval(F, f, n["c"][0], stepd, facts, depth)
+    if k in ("int", "float"):
+        v = n["v"]
+        return _PF if isinstance(v, (int, float)) and v > 0 and v == v and abs(v) != float("inf") else (_PF - {"pos"} if isinstance(v, (int, float)) and v == v else frozenset())
+    if k == "ref":
+        if n.get("d") == stepd:
+            return frozenset(facts)
+        var, _ = find_var(f, n.get("d"))
+        if var is not None and var.get("c") and "const" in (var.get("t") or ""):
+            return _pf_eval(F, f, var["c"][0], stepd, facts, depth)
+        return frozenset()
+    if k == "cond":
+        c, a, b = n["c"]
+        ta, tb = set(facts), set(facts)
+        inner, neg = strip_not(c)
+        if inner is not None and callee(inner) in ("std::isfinite", "isfinite") and ref_decl(args(inner)[0]) == stepd:
+            (tb if neg else ta).update(("nonan", "noinf"))
+        return _pf_eval(F, f, a, stepd, ta, depth) & _pf_eval(F, f, b, stepd, tb, depth)
+    if k == "call":
+        cal = callee(n)
+        a = args(n)
+        if cal == "std::clamp" and len(a) == 3:
+            x, lo, hi = (_pf_eval(F, f, z, stepd, facts, depth) for z in a)
+            out = set()
+            if "nonan" in x and "nonan" in lo and "nonan" in hi:
+                out.add("nonan")
+            if {"noinf", "nonan"} <= lo and {"noinf", "nonan"} <= hi:
+                out.add("noinf")
+            if "pos" in lo and "nonan" in x:
+                out.add("pos")
+            return frozenset(out)
+        if cal in ("std::min", "std::max") and len(a) == 2:
+            x, y = (_pf_eval(F, f, z, stepd, facts, depth) for z in a)
+            out = set()
+            if "nonan" in x and "nonan" in y:
+                out.add("nonan")
+                if "noinf" in x and "noinf" in y:
+                    out.add("noinf")
+                if ("pos" in x and "pos" in y) or (cal == "std::max" and ("pos" in x or "pos" in y)):
+                    out.add("pos")
+                if cal == "std::min" and ("noinf" in x or "noinf" in y) and ("pos" in x and "pos" in y):
+                    out.add("noinf")
+            return frozenset(out)
+        if cal in ("std::numeric_limits::epsilon", "std::numeric_limits::min", "std::numeric_limits::max") or \
+                (cal.startswith("nano::epsilon") and not a):
+            return _PF
+        if cal in ("std::fabs", "std::abs", "fabs", "abs") and len(a) == 1:
+            return _pf_eval(F, f, a[0], stepd, facts, depth) - {"pos"}
+        if depth < 3 and not a:
+            for g in F.resolve(n):
+                rets = [x for x in g.nodes() if x["k"] == "return" and x.get("c")]
+                if len(rets) == 1 and g.body is not None and len([x for x in g.body.get("c", ())]) == 1:
+                    return _pf_eval(F, g, rets[0]["c"][0], None, (), depth + 1)
+        return frozenset()
+    if k == "bin" and n["op"] in ("*", "/", "+"):
+        x, y = (_pf_eval(F, f, z, stepd, facts, depth) for z in n["c"])
+        # finite positive operands give a positive product / quotient / sum; overflow to infinity after repeated scaling is out of scope (the
+        # scaling loops are bounded by max_iterations and guarded by update(), which rejects a non-finite trial point)
+        if _PF <= x and _PF <= y:
+            return _PF
+        return frozenset()
+    return frozenset()
+
+
+def rule_initial_step(F, R):
+    """R-C07-7: whatever initial step the caller passes (the property includes NaN and +-infinity), every trial step that lsearchk_t::get
+    hands to update() / do_get() is certainly a finite positive number: must-analysis of {not NaN, not infinite, > 0} for the step variable
+    over the CFG (std::isfinite tests refine it on their edges and inside `?:`; clamp / min / max / literals / scaling by positive constants
+    are evaluated; anything else loses the facts)."""
+    f = F.one("nano::lsearchk_t::get", "src/lsearchk.cpp")
+    steps = [p for p in f.params if (p.get("t") or "") in ("double", "nano::scalar_t", "const double")]
+    if len(steps) != 1:
+        R.incomplete("R-C07-7", "lsearchk_t::get initial step", f.loc(), "expected exactly one real-valued parameter (the initial step)")
+        return
+    stepd = steps[0]["d"]
+    cfg = f.cfg
+
+    def t_elem(facts, e):
+        if e.kind != "node" or e.node is None:
+            return None
+        n = e.node
+        a = assignment(n)
+        if a is not None and ref_decl(a[0]) == stepd:
+            lhs, rhs, op = a
+            if op == "=":
+                return set(_pf_eval(F, f, rhs, stepd, facts))
+            if op in ("*=", "/=", "+="):
+                y = _pf_eval(F, f, rhs, stepd, facts)
+                return set(_PF) if _PF <= set(facts) and _PF <= y else set()
+            return set()
+        if n["k"] == "un" and n.get("op") in ("++", "--") and ref_decl(n["c"][0]) == stepd:
+            return set()
+        if n["k"] == "call" and n is not None:
+            for i_, a_ in enumerate(args(n)):
+                if ref_decl(a_) == stepd and n.get("pk", "")[i_:i_ + 1] in ("r", "p"):
+                    return set()            # passed by non-const reference / pointer: may be rewritten
+        return None
+
+    def t_edge(facts, b, k):
+        if b.cond is None or len(b.succ) != 2:
+            return None
+        inner, neg = strip_not(b.cond)
+        if inner is not None and inner["k"] == "call" and callee(inner) in ("std::isfinite", "isfinite") and args(inner) and ref_decl(args(inner)[0]) == stepd:
+            if (k == 0) != bool(neg):
+                facts.update(("nonan", "noinf"))
+        return None
+
+    IN, before = must_dataflow(cfg, set(), t_elem, t_edge)
+    nuse = 0
+    for c in f.calls(lambda n: callee(n) in ("nano::lsearchk_t::update", "nano::lsearchk_t::do_get")):
+        idx = [i_ for i_, a_ in enumerate(args(c)) if ref_decl(a_) == stepd]
+        if not idx:
+            exprs = [a_ for a_ in args(c) if (a_.get("t") or "").replace("const ", "") in ("double", "nano::scalar_t")]
+        else:
+            exprs = [args(c)[idx[0]]]
+        if not exprs:
+            R.incomplete("R-C07-7", "lsearchk_t::get %s@%d" % (callee(c).split("::")[-1], c["l"]), f.loc(c), "the step argument of the call was not found")
+            continue
+        nuse += 1
+        w = cfg.where_enclosing(c)
+        facts = before(*w) if w is not None else None
+        if facts is None:
+            continue
+        got = _pf_eval(F, f, exprs[0], stepd, facts)
+        miss = [m for m in ("nonan", "noinf", "pos") if m not in got]
+        words = {"nonan": "NaN", "noinf": "infinite", "pos": "zero or negative"}
+        R.check(not miss, "R-C07-7", "lsearchk_t::get %s@%d" % (callee(c).split("::")[-1], c["l"]), f.loc(c),
+                "the trial step handed to %s is a finite positive number whatever initial step the caller passed" % callee(c).split("::")[-1],
+                "the trial step `%s` handed to %s may be %s when the caller's initial step is not finite (or not positive): every trial point is then x0 + t d with "
+                "a useless t, and the search fails or returns that step" % (pp(exprs[0]), callee(c).split("::")[-1], " / ".join(words[m] for m in miss)))
+    R.floor("R-C07-7", nuse, 3, "calls of update / do_get in lsearchk_t::get")
+
+
 def rule_cgdescent(F, R):
     """R-C07-3 for CG_DESCENT: interval_t::step_size and the trial state only change together in move()"""
     rule = "R-C07-3"
@@ -552,4 +693,5 @@ def run(ctx):
     rule_cgdescent(F, R)
     rule_cgdescent_bracket(F, R)
     rule_backtrack_contracts(F, R)
+    rule_initial_step(F, R)
     rule_predicates(F, R)
